@@ -203,8 +203,16 @@ where
         // `finish()` flushes any remaining input *first* and only then calls `handle_end()`,
         // so a `ContentHandlerError` from the end handler arrives after the sink already has
         // every input byte. No additional flush needed; the caller continues from where the
-        // rewriter left off.
-        self.parser.get_dispatcher().finish(chunk)
+        // rewriter left off. It is still a graceful bail-out, so the bail-out handlers must run.
+        if let Err(e) = self.parser.get_dispatcher().finish(chunk) {
+            if self.should_bail_out_for(&e) {
+                self.parser.get_dispatcher().run_bail_out_handlers(&e);
+            }
+
+            return Err(e);
+        }
+
+        Ok(())
     }
 
     #[cfg(feature = "_integration_test")]
